@@ -173,6 +173,14 @@ func (r *Route) Headers(pairs ...string) *Route {
 	return r
 }
 
+// merge adds the leaves of another Route to this one, so that the Route returned
+// for a registration of several HTTP methods covers all of them.
+func (r *Route) merge(other *Route) {
+	for method, leaf := range other.leaves {
+		r.leaves[method] = leaf
+	}
+}
+
 // Name sets the name for the route.
 func (r *Route) Name(name string) {
 	if name == "" {
@@ -268,7 +276,7 @@ func (r *router) Group(routePath string, fn func(), handlers ...Handler) {
 func (r *router) Get(routePath string, handlers ...Handler) *Route {
 	route := r.Route(http.MethodGet, routePath, handlers)
 	if r.autoHead {
-		r.Head(routePath, handlers...)
+		route.merge(r.Head(routePath, handlers...))
 	}
 	return route
 }
@@ -331,7 +339,12 @@ func (r *router) Routes(routePath, methods string, handlers ...Handler) *Route {
 
 	var route *Route
 	for _, m := range ms {
-		route = r.Route(m, routePath, handlers)
+		rt := r.Route(m, routePath, handlers)
+		if route == nil {
+			route = rt
+		} else {
+			route.merge(rt)
+		}
 	}
 	return route
 }
